@@ -228,6 +228,16 @@ def run(ctx, name, kind, **kw):
                     ctx.check(good, "wrong_under_interleaving:" + fn, "%s(%d, %d) = %r under interleaving" % (fn, a, m, v), dict(jobs=jobs, decisions=s.decisions[:300]))
         finally:
             hooks.uninstall()
+        # same-thread re-entrancy (signal handler / finaliser calling into the module while a call is suspended)
+        rj = []
+        for p_ in primes:
+            for _ in range(3):
+                t_ = rng.randrange(2, p_)
+                sq = t_ * t_ % p_
+                rj.append(("square_root_mod_prime", NT.square_root_mod_prime, (sq, p_), (lambda v, sq=sq, p_=p_: v is not None and 0 <= v < p_ and v * v % p_ == sq)))
+                rj.append(("jacobi", NT.jacobi, (t_, p_), nt.legendre(t_, p_)))
+                rj.append(("inverse_mod", NT.inverse_mod, (t_, p_), nt.inv(t_, p_)))
+        S.reentrant_purity(ctx, S.codes_of(NT, {"square_root_mod_prime", "jacobi", "inverse_mod", "polynomial_reduce_mod", "polynomial_multiply_mod", "polynomial_exp_mod", "modular_exp"}), rj, rng, max(6, kw["runs"] // 6))
     elif kind == "pyopt":
         # the same contracts with the interpreter's assert statements stripped (python -O): results must not depend on an assert's side effects
         import json
